@@ -191,8 +191,18 @@ def run(ctx):
     src = {r["run"]: r["src"] for r in runs}
     infra = [o for o in obs if o["infra"]]
     if infra:
-        raise vf.Infra("%d runs did not reach a quiescent point; first (run %d, %s): %s\nops=%s\n%s" % (
+        raise vf.Infra("%d runs failed in the harness; first (run %d, %s): %s\nops=%s\n%s" % (
             len(infra), infra[0]["run"], infra[0]["fmt"], infra[0]["infra"], json.dumps(infra[0]["ops"]), infra[0].get("dump", "")[:3000]))
+    # runs without a (confirmed) quiescent point within the time limit are inconclusive: no verdict from them
+    inconc = [o for o in obs if o.get("inconclusive")]
+    ctx.set("runs_inconclusive", len(inconc))
+    if len(inconc) > max(2, len(obs) // 50):
+        raise vf.Infra("%d of %d runs were inconclusive (no confirmed quiescent point); first (run %d, %s): %s\nops=%s\n%s" % (
+            len(inconc), len(obs), inconc[0]["run"], inconc[0]["fmt"], inconc[0]["inconclusive"], json.dumps(inconc[0]["ops"]),
+            inconc[0].get("dump", "")[:3000]))
+    if inconc:
+        ctx.note("%d runs were inconclusive (%s) and are left out" % (len(inconc), inconc[0]["inconclusive"]))
+    obs = [o for o in obs if not o.get("inconclusive")]
     crashed = [o for o in obs if o["crashed"]]
     good = [o for o in obs if not o["crashed"] and o["ev"]]
     if not good:
@@ -272,7 +282,8 @@ def run(ctx):
 def _show(e):
     k = e["k"]
     if k == "q":
-        return "q[r%d g%d i%d s%d%s fs%d]" % (e["r"], e["g"], e["ig"], e["sg"], " CLOSE-PENDING" if e["cp"] else "", e["fs"])
+        return "q[r%d g%d i%d s%d%s fs%d%s]" % (e["r"], e["g"], e["ig"], e["sg"], " CLOSE-PENDING" if e["cp"] else "", e["fs"],
+                                               " confirmed" if e.get("sure") else "")
     if k == "peek":
         return "peek(r%d)" % e["r"]
     if k in ("create", "complete"):
